@@ -147,6 +147,9 @@ pub fn install_panic_hook() {
         } else {
             "?".into()
         };
+        if std::env::var_os("VH_TRACE_PANICS").is_some() {
+            eprintln!("panic at {loc}: {msg}\n{}", std::backtrace::Backtrace::force_capture());
+        }
         if msg.contains("unsafe precondition") {
             // the process is about to abort: leave the reason where the driver can classify it
             eprintln!("non-unwinding panic at {loc}: {msg}");
